@@ -42,7 +42,7 @@ theorem item_decodes_name {s : State} {a k : Nat} {m : CMode} {n : WName} (hw : 
     (hnm : NameIs s a m n) :
     ∃ w, specDecodeName (s.octets.extract 0 s.cursor) a = some (w, n.len, k) ∧
       w.map lowerU8 = n.wire.map lowerU8 ∧ (m ≠ .standard → w = n.wire) := by
-  obtain ⟨q, ls, hop, hst, hm⟩ := hnm
+  obtain ⟨⟨q, ls, hop, hst, hm⟩, _⟩ := hnm
   have hcs : s.cursor ≤ s.octets.size := Nat.le_trans hw.cur_av hw.av_size
   have hqg : q ∈ s.gLabels := (nameAt_start hst).1
   obtain ⟨ls', hn, hb⟩ := hw.clabs q hqg
@@ -219,23 +219,60 @@ def optRecs' : Option Edns → List RRec
   | some e => [⟨WName.root, T_OPT, e.payload, (e.upper * 16777216) % 4294967296, []⟩]
   | none => []
 
+/-- every recorded label start is the first octet of a label of a name of the chains: of a question
+    below `r`, of a record (owner or RDATA) from `r` on -/
+def Labs (s : State) (r : Nat) (qs : List QItC) (rs : List RItC) : Prop :=
+  ∀ g ∈ s.gLabels, (g < r → ∃ it ∈ qs, PhysLab s.octets it.a g) ∧
+    (r ≤ g → ∃ it ∈ rs, ∃ a ∈ it.a :: it.ps, PhysLab s.octets a g)
+
+theorem labs_of {s : State} {qs : List QItC} {rs : List RItC} (h1 : QLab s qs) (h2 : RLab s rs) :
+    Labs s s.rrStart qs rs := fun g hg => ⟨h1 g hg, h2 g hg⟩
+
+theorem labs_move {s s' : State} {r e : Nat} {qs : List QItC} {rs : List RItC} (hq : QChainC s qs 12 r)
+    (hr : RChainC s rs r e) (hpre : ∀ i, 12 ≤ i → i < e → s'.octets[i]? = s.octets[i]?)
+    (hg : ∀ g ∈ s'.gLabels, g ∈ s.gLabels) (h : Labs s r qs rs) : Labs s' r qs rs := by
+  intro g hg'
+  have hre := rchainC_le hr
+  have h12 := qchainC_le hq
+  obtain ⟨a1, a2⟩ := h g (hg g hg')
+  refine ⟨fun hlt => ?_, fun hge => ?_⟩
+  · obtain ⟨it, b1, b2⟩ := a1 hlt
+    obtain ⟨c1, c2, c3⟩ := qchainC_mem hq it b1
+    exact ⟨it, b1, physLab_frame c2.1.2.1 b2 (fun i d1 d2 => hpre i (by omega) (by omega))⟩
+  · obtain ⟨it, b1, x, b2, b3⟩ := a2 hge
+    obtain ⟨c1, c2, c3⟩ := rchainC_mem hr it b1
+    obtain ⟨d0, k, d1, d2⟩ := rfacts_chunk c2 x b2
+    exact ⟨it, b1, x, b2, physLab_frame d1 b3 (fun i f1 f2 => hpre i (by omega) (by omega))⟩
+
 /-- one record appended by `finish` (no hint), with content -/
 theorem chainsC_addRr_none {s s' : State} (hw : WInv s) (hl : PtrLogOK s) (owner : WName) (ty cls ttl : Nat)
     (rd : List UInt8) (hwf : owner.WF)
     (h : addRr .none owner ty cls ttl rd s = (.ok (), s')) (hle : s'.cursor ≤ 65535)
     {qs : List QItC} {rs : List RItC} {r : Nat} (hr12 : r ≤ s.cursor)
-    (hq : QChainC s qs 12 r) (hr : RChainC s rs r s.cursor) :
+    (hq : QChainC s qs 12 r) (hr : RChainC s rs r s.cursor) (hlab : Labs s r qs rs) :
     WInv s' ∧ PtrLogOK s' ∧ Ext s s' ∧ QChainC s' qs 12 r ∧
-      ∃ it : RItC, RChainC s' (rs ++ [it]) r s'.cursor ∧ it.r = ⟨owner, ty, cls, ttl, rd⟩ ∧ it.m = s.mode := by
+      ∃ it : RItC, RChainC s' (rs ++ [it]) r s'.cursor ∧ it.r = ⟨owner, ty, cls, ttl, rd⟩ ∧ it.m = s.mode ∧
+        Labs s' r qs (rs ++ [it]) := by
   obtain ⟨_, hok⟩ := sp_addRr (track := s.hv = some []) (s0 := s) (names := []) .none owner ty cls ttl rd hwf s
     ⟨[], _, none, recSt_init hw hl, trivial⟩
   obtain ⟨p, hrec⟩ := hok () s' h
   have e : Ext s s' := by
     have := frame_addRr .none owner ty cls ttl rd s
     rw [h] at this; exact this
-  obtain ⟨it, hch, hrr, hm⟩ := addRr_itemC .none owner ty cls ttl rd s s' hw hl hwf trivial h hle
-  exact ⟨hrec.winv, hrec.log, e, qchainC_ext e hr12 hq, it,
-    rchainC_append (rchainC_ext e (Nat.le_refl _) hr) hch, hrr, hm⟩
+  obtain ⟨it, hch, hrr, hm, hpv⟩ := addRr_itemC .none owner ty cls ttl rd s s' hw hl hwf trivial h hle
+  refine ⟨hrec.winv, hrec.log, e, qchainC_ext e hr12 hq, it,
+    rchainC_append (rchainC_ext e (Nat.le_refl _) hr) hch, hrr, hm, fun g hg => ?_⟩
+  rcases hpv g hg with a1 | ⟨a, a1, a2⟩
+  · obtain ⟨b1, b2⟩ := labs_move hq hr (fun i _ f2 => e.pre i f2) (fun _ x => x)
+      (s' := { s with octets := s'.octets }) hlab g a1
+    refine ⟨b1, fun hge => ?_⟩
+    obtain ⟨x, c1, c2⟩ := b2 hge
+    exact ⟨x, List.mem_append_left _ c1, c2⟩
+  · obtain ⟨c1, c2, c3⟩ := rchainC_mem hch it List.mem_cons_self
+    obtain ⟨d0, k, d1, d2⟩ := rfacts_chunk c2 a a1
+    have hrng := physLab_range d1 a2
+    refine ⟨fun hlt => ?_, fun _ => ⟨it, List.mem_append_right _ List.mem_cons_self, a, a1, a2⟩⟩
+    omega
 
 /-- the final chains with content -/
 structure FinLayC (P : CMode → Prop) (s sF : State) (len : Nat) (mac : Option (List UInt8)) (b : Body)
@@ -252,7 +289,9 @@ structure FinLayC (P : CMode → Prop) (s sF : State) (len : Nat) (mac : Option 
     rs.map (·.m) = mb.an ++ mb.ns ++ (mb.ar ++ (optRecs' s.edns).map (fun _ => s.mode) ++
       (tsigRecs s.tsig mac).map (fun _ => s.mode)) ∧
     -- the items are those of the state before `finish`, followed by the pseudo-records
-    ∃ rs0 ex, rs = rs0 ++ ex ∧ QChainC s qs 12 s.rrStart ∧ RChainC s rs0 s.rrStart s.cursor
+    ∃ rs0 ex, rs = rs0 ++ ex ∧ QChainC s qs 12 s.rrStart ∧ RChainC s rs0 s.rrStart s.cursor ∧
+      -- every recorded label start belongs to a name of the chains
+      Labs sF s.rrStart qs rs
 
 theorem finishWithMac_finLayC (macFn : Tsig → List UInt8 → List UInt8) (s : State) (b : Body) (mb : MBody)
     (hI : I s) (hL : CLay P s b mb) (len : Nat) (mac : Option (List UInt8)) (sF : State)
@@ -277,7 +316,7 @@ theorem finishWithMac_finLayC (macFn : Tsig → List UInt8 → List UInt8) (s : 
   have hres := inv_reserved' hI.inv
   have hav := hI.inv.av_lim; have hls := hI.inv.lim_size
   have h11 : Gen.OPT_RECORD_SIZE = 11 := rfl
-  obtain ⟨qs, hq, hqm, hqP, hqM⟩ := hL.q
+  obtain ⟨qs, hq, hqm, hqP, hqM, hqJ⟩ := hL.q
   have hq12 : 12 ≤ s.rrStart := qchainC_le hq
   cases ho : finishOpt s.edns sA with
   | mk r2 s1 =>
@@ -303,7 +342,7 @@ theorem finishWithMac_finLayC (macFn : Tsig → List UInt8 → List UInt8) (s : 
           rw [hadd] at this; exact this.cur
       have hle1 : s1.cursor ≤ 65535 := by omega
       have hle0 : s.cursor ≤ 65535 := by omega
-      obtain ⟨rs, hr, hrm, hrP, hrM⟩ := hL.r hle0
+      obtain ⟨rs, hr, hrm, hrP, hrM, hrJ⟩ := hL.r hle0
       have hpreA : ∀ i, 12 ≤ i → i < s.cursor → sA.octets[i]? = s.octets[i]? := fun i hi _ => kpre i (Or.inr hi)
       have hqA : QChainC sA qs 12 s.rrStart :=
         qchainC_move (lo := 12) (fun it hlo hk hf => qfacts_frame (lo := 12) hf hlo (by omega) hI.winv.g12 hpreA
@@ -312,16 +351,18 @@ theorem finishWithMac_finLayC (macFn : Tsig → List UInt8 → List UInt8) (s : 
         rw [cA]
         exact rchainC_move (lo := 12) (fun it hlo hk hf => rfacts_frame (lo := 12) hf hlo hk hI.winv.g12 hpreA
           (by rw [cA]; exact Nat.le_refl _) (fun g hg => by rw [gA]; exact hg)) hq12 hr
+      have hlabA : Labs sA s.rrStart qs rs :=
+        labs_move hq hr hpreA (fun g hg => by rw [gA] at hg; exact hg) (labs_of hqJ hrJ)
       -- stage 1: the OPT record
       have stage1 : ∃ o1 : List RItC, WInv s1 ∧ PtrLogOK s1 ∧ QChainC s1 qs 12 s.rrStart ∧
           RChainC s1 (rs ++ o1) s.rrStart s1.cursor ∧ o1.map (·.r) = optRecs' s.edns ∧
           (∀ i, i < 12 → s1.octets[i]? = sA.octets[i]?) ∧ s1.tsig = s.tsig ∧
           s1.available + tsigReserved s.tsig ≤ s1.octets.size ∧ (∀ it ∈ o1, it.m = s.mode) ∧ s1.mode = s.mode ∧
-          o1.map (·.m) = (optRecs' s.edns).map (fun _ => s.mode) := by
+          o1.map (·.m) = (optRecs' s.edns).map (fun _ => s.mode) ∧ Labs s1 s.rrStart qs (rs ++ o1) := by
         rcases hO with ⟨he, e⟩ | ⟨e, he, hadd⟩
         · subst e
           refine ⟨[], hIA.winv, hIA.log, hqA, by simpa using hrA, by rw [he]; rfl, fun _ _ => rfl, tA, ?_,
-            (fun _ hx => by cases hx), mA, by rw [he]; rfl⟩
+            (fun _ hx => by cases hx), mA, by rw [he]; rfl, by simpa using hlabA⟩
           rw [avA, szA]; rw [he] at hres; simp at hres; omega
         · rw [he] at hres
           simp only [Option.isSome_some, if_true, h11] at hres
@@ -332,19 +373,19 @@ theorem finishWithMac_finLayC (macFn : Tsig → List UInt8 → List UInt8) (s : 
             qchainC_fields (s := sA) (s' := { sA with available := sA.available + Gen.OPT_RECORD_SIZE }) rfl rfl rfl hqA
           have hrA' : RChainC { sA with available := sA.available + Gen.OPT_RECORD_SIZE } rs s.rrStart sA.cursor :=
             rchainC_fields (s := sA) (s' := { sA with available := sA.available + Gen.OPT_RECORD_SIZE }) rfl rfl rfl hrA
-          obtain ⟨w1, l1, e1, hq1, it, hr1, hit1, hitm⟩ := chainsC_addRr_none
+          obtain ⟨w1, l1, e1, hq1, it, hr1, hit1, hitm, hlab1⟩ := chainsC_addRr_none
             (s := { sA with available := sA.available + Gen.OPT_RECORD_SIZE }) wA' hIA.log WName.root T_OPT
             e.payload ((e.upper * 16777216) % 4294967296) [] (by decide) hadd hle1
-            (r := s.rrStart) (by show s.rrStart ≤ sA.cursor; rw [cA]; exact hrr) hqA' hrA'
+            (r := s.rrStart) (by show s.rrStart ≤ sA.cursor; rw [cA]; exact hrr) hqA' hrA' hlabA
           refine ⟨[it], w1, l1, hq1, hr1, ?_, fun i hi => e1.pre i (by show i < sA.cursor; rw [cA]; omega),
             by rw [e1.tsig]; exact tA, ?_, fun x hx => by
               simp only [List.mem_singleton] at hx; subst hx; rw [hitm]; exact mA,
-            by rw [e1.mode]; exact mA, by rw [he]; simp only [List.map_cons, List.map_nil, optRecs', hitm]; show [sA.mode] = _; rw [mA]⟩
+            by rw [e1.mode]; exact mA, by rw [he]; simp only [List.map_cons, List.map_nil, optRecs', hitm]; show [sA.mode] = _; rw [mA], hlab1⟩
           · rw [he]; simp only [List.map_cons, List.map_nil, hit1]; rfl
           · rw [e1.available, e1.size]
             show sA.available + Gen.OPT_RECORD_SIZE + _ ≤ sA.octets.size
             rw [avA, szA, h11]; omega
-      obtain ⟨o1, w1, l1, hq1, hr1, hom, hpre1, ht1, hroom1, hom1, hm1, homM⟩ := stage1
+      obtain ⟨o1, w1, l1, hq1, hr1, hom, hpre1, ht1, hroom1, hom1, hm1, homM, hlab1⟩ := stage1
       have hP1 : ∀ it ∈ rs ++ o1, P it.m := by
         intro it hx
         rcases List.mem_append.mp hx with hx | hx
@@ -357,7 +398,7 @@ theorem finishWithMac_finLayC (macFn : Tsig → List UInt8 → List UInt8) (s : 
       rcases hT with ⟨hts, e, hlen⟩ | ⟨ts, rdata, hts, hlen, hadd, hrd⟩
       · subst e
         refine ⟨w1, hlen, hhdr1, ?_, qs, rs ++ o1, hq1, hr1, hqm, ?_, hqP, hP1, hqM, by
-          rw [List.map_append, hrM, homM, hts]; simp [tsigRecs, List.append_assoc], rs, o1, rfl, hq, hr⟩
+          rw [List.map_append, hrM, homM, hts]; simp [tsigRecs, List.append_assoc], rs, o1, rfl, hq, hr, hlab1⟩
         · intro i hi
           rw [hl8] at hi
           rw [hpre1 _ (by omega)]
@@ -375,10 +416,10 @@ theorem finishWithMac_finLayC (macFn : Tsig → List UInt8 → List UInt8) (s : 
         have hr1' : RChainC { s1 with tsig := none, available := s1.available + ts.reservedLen } (rs ++ o1)
             s.rrStart s1.cursor :=
           rchainC_fields (s := s1) (s' := { s1 with tsig := none, available := s1.available + ts.reservedLen }) rfl rfl rfl hr1
-        obtain ⟨w2, l2, e2, hq2, it, hr2, hit2, hitm2⟩ := chainsC_addRr_none
+        obtain ⟨w2, l2, e2, hq2, it, hr2, hit2, hitm2, hlab2⟩ := chainsC_addRr_none
           (s := { s1 with tsig := none, available := s1.available + ts.reservedLen }) w1' l1 ts.rr.keyName T_TSIG
           QC_ANY (ttlFrom 0) rdata hkey hadd hle
-          (r := s.rrStart) (by show s.rrStart ≤ s1.cursor; rw [cA] at hmonoA; omega) hq1' hr1'
+          (r := s.rrStart) (by show s.rrStart ≤ s1.cursor; rw [cA] at hmonoA; omega) hq1' hr1' hlab1
         refine ⟨w2, hlen, fun i hi => by
             rw [e2.pre _ (by show i < s1.cursor; omega)]; exact hhdr1 i hi, ?_, qs, rs ++ o1 ++ [it], hq2, hr2, hqm, ?_,
           hqP, fun x hx => by
@@ -389,7 +430,7 @@ theorem finishWithMac_finLayC (macFn : Tsig → List UInt8 → List UInt8) (s : 
             rw [List.map_append, List.map_append, hrM, homM, hts]
             simp only [List.map_cons, List.map_nil, tsigRecs, hitm2, List.append_assoc]
             show _ ++ (_ ++ (_ ++ (_ ++ [s1.mode]))) = _
-            rw [hm1], rs, o1 ++ [it], by simp [List.append_assoc], hq, hr⟩
+            rw [hm1], rs, o1 ++ [it], by simp [List.append_assoc], hq, hr, hlab2⟩
         · intro i hi
           rw [hl8] at hi
           rw [e2.pre _ (by show 4 + i < s1.cursor; omega), hpre1 _ (by omega)]
